@@ -5,7 +5,8 @@ Mode == IOEnv.SETUPMODE
 Eval(c) == LET s == Run(c, Mode)
            IN [ err |-> s.err, rec |-> s.rec, t |-> s.t,
                 stepsOK |-> StepsOK(s), closed |-> ClosedAcrossRun(c, s), dirichlet |-> DirichletAcrossRun(c, s),
-                timesIncrease |-> TimesIncrease(s) ]
+                timesIncrease |-> TimesIncrease(s),
+                mesh |-> IF s.err = "" /\ Len(s.rec) > 0 THEN [k \in 1..Len(c.meshtimes) |-> MeshAt(c, s, c.meshtimes[k])] ELSE <<>> ]
 ASSUME JsonSerialize(IOEnv.OUTF, [i \in 1..Len(Cases) |-> Eval(Cases[i])])
 VARIABLE x
 Init == x = 0
